@@ -549,3 +549,10 @@ pub proof fn lemma_dep_cof(f: BF, n: int, c: Seq<Term>, k: int)
 {
     if k > 0 { lemma_dep_cof(f, n, c, k - 1); if decided(c[k - 1]) { lemma_dep_restrict(cof(f, c, k - 1), n, (k - 1) as usize, c[k - 1].0 == 1); } }
 }
+pub proof fn law_restrict_eval(f: BF, v: usize, b: bool, a: Asg) ensures bf_restrict(f, v, b)(a) == f(upd(a, v, b)) { }
+// restricting by the value the assignment already has changes nothing at that assignment
+pub proof fn law_restrict_same(f: BF, v: usize, a: Asg) ensures bf_restrict(f, v, a(v))(a) == f(a) { assert(upd(a, v, a(v)) =~= a); }
+pub proof fn lemma_indep_eval(f: BF, v: usize, a: Asg)
+    requires bf_indep(f, v),
+    ensures f(upd(a, v, true)) == f(upd(a, v, false))
+{ assert(f(upd(a, v, true)) == f(a)); assert(f(upd(a, v, false)) == f(a)); }
